@@ -128,3 +128,23 @@ Proof.
 Qed.
 
 End Converge.
+
+(* ---- the crate's LWWSet, with no well-formedness hypothesis left: every state
+   the API can construct (any insert/remove sequence) is well-formed ---- *)
+Lemma lwwset_build_wf ops : wf lwwset_sl (lwwset_build ops).
+Proof.
+  rewrite lwwset_build_generic. apply (map_build_wf unit_sl unit_laws).
+  apply Forall_forall. intros [k [c [v|]]] _; exact I.
+Qed.
+
+Theorem lwwset_replicas_converge (a : list sop) (l1 l2 : list (list sop)) :
+  (forall x, In x l1 <-> In x l2) ->
+  merge_all lwwset_sl (lwwset_build a) (map lwwset_build l1)
+  = merge_all lwwset_sl (lwwset_build a) (map lwwset_build l2).
+Proof.
+  intros Heq. apply (merge_all_converges lwwset_sl lwwset_laws).
+  - apply lwwset_build_wf.
+  - apply Forall_forall. intros s Hs. apply in_map_iff in Hs. destruct Hs as (o & <- & _). apply lwwset_build_wf.
+  - apply Forall_forall. intros s Hs. apply in_map_iff in Hs. destruct Hs as (o & <- & _). apply lwwset_build_wf.
+  - intros s. rewrite !in_map_iff. split; intros (o & E & Ho); exists o; (split; [exact E | apply Heq; exact Ho]).
+Qed.
